@@ -48,13 +48,13 @@ SPEC = hdr_spec(
     prefixes={"C19"}, profiles=[("loc", 7), ("mixed", 3)],
     rule=GEN_RULE + "GetLocatorHashes for max in {1,2,3,10,50} and the verify-only locator after arbitrary ops, on pruned chains and with several side branches; main-net scripts at and above the real split height with loc max=1..12 after every few headers; "
          "non-trivial = at least 8 submissions",
-    props_file="C19", extra=mainnet_locators,
-    assumptions=["the peer-side clause (a protocol-conformant peer's reply connects to a header we hold) follows from 'first best-chain entry = tip's parent' and is exercised by C13/C14's scripted peer, not here"])
+    props_file="C19", extra=mainnet_locators, more_props=("C19Peer",),
+    assumptions=["the peer is an external party: its protocol behaviour (getheaders: answer with the headers above the FIRST locator hash on its own chain, at most the limit; from above genesis when none is shared) is the specification `peerReply` of Props/C19Peer.lean, not code of this repository; the peer-side theorems compose that specification with the model's locator and are not run against a real peer (C13/C14's scripted peer answers the same way)"])
 
 META = dict(
     technique="Lean 4 proof (induction over the back-off walk; de-duplication lemmas; `decide` over the extracted split table) + model/implementation correspondence",
     text="Theorems for every repository state and every max >= 1: no hash appears twice in the chain locator or the verify-only locator; de-duplication loses nothing; "
          "the walk takes at most max hashes from the best chain; genesis alone at height 0; above that the first entry is the tip's parent; the verify-only locator "
          "of the extracted main-net table is [BCH/BSV fork point, BTC fork point]; the wire parameters (5, 10, 3) are the extracted ones. For every state: every hash of the locator is a header the best chain holds at some height (or the tip of a height-0 chain), a fork point of the configured split table, or the lowest held header of a tracked side branch (C19_membership, C19_branch_membership), and the best-chain hashes come in strictly descending height (C19_newest_first).",
-    note=COMMON_NOTE + "Membership and order are theorems about the model (C19_membership, C19_newest_first) and checked on the implementation by the monitor.",
+    note=COMMON_NOTE + "Peer-side clause (Props/C19Peer.lean): for every state, maximum, peer chain and limit, the first header of a per-protocol reply of a peer sharing any locator hash names a locator hash as its previous block, hence (C19_membership) a header we hold (C19_peer_reply_first_prev, C19_peer_reply_connects); the reply is a linked run (C19_peer_reply_linked); a peer holding our tip directly above our tip's parent answers the best branch's locator starting with our tip, whatever unshared hashes precede the parent in the locator (C19_peer_reply_starts_with_tip, C19_same_chain_peer_starts_with_tip). " + "Membership and order are theorems about the model (C19_membership, C19_newest_first) and checked on the implementation by the monitor.",
 )
